@@ -126,16 +126,6 @@ def c07(d, run):
                        "the sample is a bag: duplicates and stale duplicates of earlier victims are modelled as the code produces them"]
 
 
-def c01(d, run):
-    trace, info = _policy_stage(d, run, "real LFUPolicy cost accounting deviates from Policy.tla")
-    cov = info.get("cov", {})
-    run.nontrivial = cov.get("adds", 0)
-    run.rule = ("policy level: every add/update/remove/clear/update_max_cost call recorded with the full (key -> charge) map, "
-                "used and max_cost; TLC checks used = sum, used <= max + slack, admission bound on every recorded state")
-    run.samples = d.sample_lines(trace, 2, lambda j: j.get("ev") in ("add", "setmax"))
-    run.assumptions = ["policy-level part of C01; cache-level part (all API paths, concurrency) in the Cache stages"]
-
-
 # ----------------------------------------------------------------------------- cache-level checks
 
 ALL_INV = ["UsedIsSum", "Bounded", "Agree", "Conservation", "NeverTwice", "NothingLost", "ResidentOwned",
@@ -288,6 +278,106 @@ def c17(d, run):
     run.assumptions = BASE_ASSUME
 
 
+def c01(d, run):
+    trace, info = _policy_stage(d, run, "real LFUPolicy cost accounting deviates from Policy.tla")
+    cov = info.get("cov", {})
+    h = cache_stage(d, run, "real cache deviates from Cache.tla (charged cost vs max_cost)",
+                    ["seq", "conc"],
+                    [("evict", "sync", 25, 200), ("seq_internal", "sync", 10, 80), ("conc", "sync", 15, 150), ("evict", "async", 10, 100)],
+                    ["costs", "chan", "store"], ["UsedIsSum", "Bounded"])
+    _need(d, h, ["PNewAdd", "PUpd", "SetMax", "PVictim"])
+    run.nontrivial = cov.get("adds", 0) + h.get("PNewAdd", 0) + h.get("PUpd", 0) + h.get("SetMax", 0)
+    run.rule = ("policy level: every add/update/remove/clear/update_max_cost call of the real LFUPolicy with the full (key -> charge) "
+                "map; cache level: every processor / client section with charges, used and max_cost; non-trivial = steps that change "
+                "the charged total or max_cost; TLC evaluates used = sum of charges and used <= max_cost + slack on every recorded state")
+    run.assumptions = BASE_ASSUME
+
+
+def c03(d, run):
+    h = cache_stage(d, run, "real cache deviates from Cache.tla (TTL visibility)",
+                    ["ttl"],
+                    [("ttl", "sync", 30, 300), ("ttl_fine", "sync", 20, 150), ("ttl_conc", "sync", 25, 200), ("ttl", "async", 10, 80)],
+                    ["store", "out", "em", "vttl"], ["IndexExact", "ResidentOwned"])
+    _need(d, h, ["Get", "GetTtl", "GetMut", "Advance", "PCleanupKey"])
+    run.nontrivial = h.get("Get", 0) + h.get("GetTtl", 0) + h.get("GetMut", 0)
+    run.rule = ("virtual clock in milliseconds; non-trivial = get / get_mut / get_ttl calls, whose visibility and remaining ttl are "
+                "compared with the specification's arithmetic on (creation instant, ttl, now); ttls 1 ms .. 1 h, advances straddling "
+                "second boundaries")
+    run.assumptions = BASE_ASSUME + ["time is the hooks' virtual clock (H1); real-time effects of SystemTime are out of scope"]
+
+
+def c05(d, run):
+    h = cache_stage(d, run, "real cache deviates from Cache.tla (expiry index and cleanup)",
+                    ["ttl"],
+                    [("ttl", "sync", 30, 300), ("ttl_fine", "sync", 20, 150), ("ttl_conc", "sync", 25, 200), ("ttl", "async", 10, 80)],
+                    ["store", "em", "costs", "cbs", "chan"], ["IndexExact", "Agree", "UsedIsSum", "NeverTwice", "Conservation"])
+    _need(d, h, ["PTick", "PCleanupKey", "PCleanupDone", "Advance", "InsBegin"])
+    run.nontrivial = h.get("PCleanupKey", 0)
+    run.rule = ("non-trivial = keys handled by a cleanup sweep; after every section the expiration buckets, resident entries, "
+                "charges and on_evict records of the implementation must equal the specification's, whose sweep takes every due bucket")
+    run.assumptions = BASE_ASSUME + ["ticks are fired by the harness at arbitrary instants of the virtual clock (the real ticker is parked)"]
+
+
+def c09(d, run):
+    h = cache_stage(d, run, "real cache deviates from Cache.tla (conditional writes)",
+                    ["seq"],
+                    [("seq_veto", "sync", 30, 200), ("seq_veto5", "sync", 15, 100), ("cond", "sync", 20, 150), ("seq_veto", "async", 10, 60)],
+                    ["store", "em", "out", "chan", "cbs"], ["ResidentOwned", "IndexExact"])
+    _need(d, h, ["InsBegin", "PNewStore"])
+    run.nontrivial = h.get("InsBegin", 0)
+    run.rule = ("non-trivial = insert / insert_if_present calls under vetoing validators (asymmetric and symmetric predicates over "
+                "value ids); result, resident value, deadline and buffer effect are compared with the specification after the call")
+    run.assumptions = BASE_ASSUME
+
+
+def c11(d, run):
+    h = cache_stage(d, run, "real cache deviates from Cache.tla (clear)",
+                    ["conc", "ttl", "seq"],
+                    [("conc_clear", "sync", 40, 300), ("ttl_clear", "sync", 20, 150), ("seq", "sync", 10, 80), ("conc_clear", "async", 10, 80)],
+                    ALL_CMP, ["IndexExact", "Agree", "UsedIsSum", "MetricsLaws", "ResidentOwned"])
+    _need(d, h, ["ClrSend", "ClrStore", "ClrMetrics", "PClrTake", "PCleanItem"])
+    run.nontrivial = h.get("ClrSend", 0)
+    run.rule = ("non-trivial = clear() calls with 0..buffer-size items pending, the processor and a second client interleaved at every "
+                "section; after each section store, buckets, charges and every metrics counter must equal the specification's")
+    run.assumptions = BASE_ASSUME
+    _known(d, run, "D7")
+
+
+def c16(d, run):
+    h = cache_stage(d, run, "real cache deviates from Cache.tla (charged cost formula)",
+                    ["seq"],
+                    [("seq_internal", "sync", 25, 200), ("seq", "sync", 15, 100), ("seq_coster0", "sync", 10, 60), ("seq_internal", "async", 10, 60)],
+                    ["costs", "cbs", "chan", "store"], ["UsedIsSum", "Agree"])
+    _need(d, h, ["PNewAdd", "PUpd", "PVictim"])
+    run.nontrivial = h.get("PNewAdd", 0) + h.get("PUpd", 0)
+    run.rule = ("non-trivial = policy applications of New / Update items: the charge must be explicit cost (or Coster value when 0) + "
+                "the per-entry overhead read from the implementation (size_of StoreItem) unless ignored; evict / reject records carry it")
+    run.assumptions = BASE_ASSUME
+
+
+def c18(d, run):
+    mc = d.tlc_mc("MC_KeyHash.tla", "MC_KeyHash.cfg", run.workdir, workers=2)
+    run.add_mc(mc, "MC_KeyHash (two's-complement limb arithmetic over a grid of boundary limb values)")
+    if mc["violated"]:
+        run.violation("KeyHash.tla arithmetic violates %s" % mc["violated"], replay_lines=[mc["out"][-4000:]])
+    r = d.vh(["keyhash", "--out", os.path.join(run.workdir, "keyhash.ndjson"), "--seed", run.seed, "--tier", run.tier])
+    files = [os.path.join(run.workdir, "keyhash.ndjson")]
+    res = d.validate_chunks("KeyHash_Trace.tla", "KeyHash_Trace.cfg", files, run.workdir, par=1, start_events=("new",))
+    d.report_trace_results(run, res, "KeyBuilder deviates from KeyHash.tla")
+    run.traces += 1
+    run.evaluations += r.get("lines", 0)
+    h = cache_stage(d, run, "real cache deviates from Cache.tla (colliding keys)",
+                    ["seq"],
+                    [("coll", "sync", 30, 200), ("coll_conc", "sync", 15, 100), ("coll", "async", 10, 60)],
+                    ["store", "out", "costs", "cbs", "chan"], ["ResidentOwned", "Agree", "Conservation"])
+    _need(d, h, ["InsBegin", "Get", "RemStore", "PDel"])
+    run.nontrivial = h.get("InsBegin", 0) + h.get("Get", 0) + h.get("RemStore", 0) + r.get("lines", 0)
+    run.rule = ("(a) build_key of every supported integer type over boundary and random values and of String/&str pairs, checked by "
+                "KeyHash_Trace (function consistency, identity on limbs); (b) histories over pairs of keys forced to share an index: "
+                "every result and state compared with Cache.tla, in which keys are (index, conflict) pairs")
+    run.assumptions = BASE_ASSUME
+
+
 def _known(d, run, tag):
     for f in d.known_findings().get("findings", []):
         if f.get("id") == tag and run.pid in f.get("properties", []):
@@ -297,13 +387,19 @@ def _known(d, run, tag):
 
 
 CHECKS = {
+    "C01": c01,
+    "C03": c03,
+    "C05": c05,
+    "C09": c09,
+    "C11": c11,
+    "C16": c16,
+    "C18": c18,
     "C02": c02,
     "C06": c06,
     "C08": c08,
     "C10": c10,
     "C12": c12,
     "C17": c17,
-    "C01": c01,
     "C07": c07,
     "C13": c13,
     "C14": c14,
